@@ -126,6 +126,17 @@ pub struct MSub {
     pub relaxed: bool,
     /// re-subscribed with a different QoS (known region R7): granted QoS unknown
     pub qos_uncertain: bool,
+    /// QoS values an earlier SUBSCRIBE of this filter had granted, each with the acceptance
+    /// index at which it was replaced: a message accepted before that may still have been
+    /// forwarded (and be drained later) with the old QoS
+    pub old_qos: Vec<(u8, usize)>,
+}
+
+impl MSub {
+    /// May a forward of message `idx` under this subscription carry `qos`?
+    pub fn qos_ok(&self, qos: u8, idx: usize) -> bool {
+        self.qos == qos || self.qos_uncertain || self.old_qos.iter().any(|(q, until)| *q == qos && idx < *until)
+    }
 }
 
 /// One QoS>0 forward as the client drained it (drain order = the broker's send order)
@@ -841,6 +852,7 @@ impl Model {
             if s.qos != qos {
                 if strict {
                     // MQTT: the repeated subscription replaces the old one with the new QoS
+                    s.old_qos.push((s.qos, now));
                     s.qos = qos;
                 } else {
                     s.qos_uncertain = true;
@@ -864,6 +876,7 @@ impl Model {
                 made_at: now,
                 relaxed: false,
                 qos_uncertain: false,
+                old_qos: Vec::new(),
             });
             for st in self.conns[serial].frontier.iter_mut() {
                 st.pos.push(now);
